@@ -8,6 +8,7 @@ import (
 	"fmt"
 	"strings"
 
+	"github.com/ohler55/ojg/jp"
 	"github.com/ohler55/slip"
 	"github.com/ohler55/slip/pkg/bag"
 	"github.com/ohler55/slip/pkg/flavors"
@@ -60,11 +61,14 @@ func bagAny(o slip.Object) (any, bool) {
 }
 
 // pathObject gives the path argument: JSONPath text when possible (and wanted), else a bag-path.
-func pathObject(p ppath, preferString bool) slip.Object {
+func pathObject(p ppath, preferString bool, rooted bool) slip.Object {
 	if preferString {
-		if s, ok := p.str(); ok {
+		if s, ok := p.str(rooted); ok {
 			return slip.String(s)
 		}
+	}
+	if !rooted && len(p) > 0 {
+		return bag.Path(p.exprFrom(jp.Expr{}))
 	}
 	return bag.Path(p.expr())
 }
